@@ -133,7 +133,16 @@ impl ModelG {
                 }
             }
             Step::Const { g, dst, which } => {
-                let p = if *which == 1 { ed::basepoint() } else { Pt::IDENTITY };
+                let p = match *which {
+                    1 => ed::basepoint(),
+                    w if w >= 3 => {
+                        if *g != 0 {
+                            return Out::Skip;
+                        }
+                        ed::torsion_table_documented()[(w as usize - 3) % 8]
+                    }
+                    _ => Pt::IDENTITY,
+                };
                 self.set(*g, *dst, p, &mut o);
             }
             Step::Uni { dst, b, via } => {
@@ -298,6 +307,7 @@ impl ModelG {
                 let p = need!(1, *a);
                 // same element, other representative
                 mobs(&mut o, 1, &p);
+                let _ = ed::torsion();
             }
             Step::FromEd { dst, a } => {
                 let p = need!(0, *a);
@@ -445,6 +455,10 @@ macro_rules! common_ops {
                 let p: $P = match which {
                     1 => $base,
                     2 => <$P>::default(),
+                    w if *w >= 3 => match <$P>::torsion_const((*w as usize - 3) % 8) {
+                        Some(p) => p,
+                        None => return Out::Skip,
+                    },
                     _ => <$P as Identity>::identity(),
                 };
                 set!(*dst, p);
@@ -628,14 +642,27 @@ macro_rules! common_ops {
     }};
 }
 
-trait Kind {
+trait Kind: Sized {
     const IS_RISTRETTO: bool;
+    /// the library's public small-order constants (Edwards only)
+    fn torsion_const(i: usize) -> Option<Self>;
 }
 impl Kind for EdwardsPoint {
     const IS_RISTRETTO: bool = false;
+    fn torsion_const(i: usize) -> Option<Self> {
+        Some(constants::EIGHT_TORSION[i])
+    }
 }
 impl Kind for RistrettoPoint {
     const IS_RISTRETTO: bool = true;
+    fn torsion_const(_i: usize) -> Option<Self> {
+        None
+    }
+}
+
+fn json_array(b: &[u8]) -> String {
+    let items: Vec<String> = b.iter().map(|x| x.to_string()).collect();
+    format!("[{}]", items.join(","))
 }
 
 fn dec_e(b: &simcore::B, via: u8) -> Option<EdwardsPoint> {
@@ -643,6 +670,9 @@ fn dec_e(b: &simcore::B, via: u8) -> Option<EdwardsPoint> {
         1 => CompressedEdwardsY::from_slice(&b.0).ok().and_then(|c| c.decompress()),
         2 if b.0.len() == 32 => Option::from(<EdwardsPoint as GroupEncoding>::from_bytes(&b.a32())),
         3 => CompressedEdwardsY::try_from(&b.0[..]).ok().and_then(|c| c.decompress()),
+        // through the serde impls: compact binary and self-describing
+        4 if b.0.len() == 32 => bincode::deserialize::<EdwardsPoint>(&b.0).ok(),
+        5 if b.0.len() == 32 => serde_json::from_str::<EdwardsPoint>(&json_array(&b.0)).ok(),
         _ if b.0.len() == 32 => CompressedEdwardsY(b.a32()).decompress(),
         _ => None,
     }
@@ -653,6 +683,8 @@ fn dec_r(b: &simcore::B, via: u8) -> Option<RistrettoPoint> {
         1 => CompressedRistretto::from_slice(&b.0).ok().and_then(|c| c.decompress()),
         2 if b.0.len() == 32 => Option::from(<RistrettoPoint as GroupEncoding>::from_bytes(&b.a32())),
         3 => CompressedRistretto::try_from(&b.0[..]).ok().and_then(|c| c.decompress()),
+        4 if b.0.len() == 32 => bincode::deserialize::<RistrettoPoint>(&b.0).ok(),
+        5 if b.0.len() == 32 => serde_json::from_str::<RistrettoPoint>(&json_array(&b.0)).ok(),
         _ if b.0.len() == 32 => CompressedRistretto(b.a32()).decompress(),
         _ => None,
     }
@@ -861,7 +893,11 @@ impl RealG {
             }
             Step::Rerep { a, j } => {
                 let p = need_r!(*a);
-                let t4 = constants::EIGHT_TORSION[(2 * (*j as usize)) % 8];
+                // E[4] point from the model's own derivation, through the public decoder
+                let t4 = match CompressedEdwardsY(ed::torsion()[(2 * (*j as usize)) % 8].encode()).decompress() {
+                    Some(t) => t,
+                    None => return Out::Skip,
+                };
                 let q = verif_hooks::ristretto_from_edwards(verif_hooks::ristretto_inner(&p) + t4);
                 use subtle::ConstantTimeEq;
                 if !bool::from(q.ct_eq(&p)) || q != p {
